@@ -34,6 +34,34 @@ fn delete_tables(path: &std::path::Path, names: &[&str]) -> anyhow::Result<Vec<S
     Ok(deleted)
 }
 
+/// Move every (writable) document from `namespaces-2` back to the older `namespaces-1` table.
+fn namespaces_to_v1(path: &std::path::Path) -> anyhow::Result<()> {
+    const V1: redb::TableDefinition<&[u8; 32], &[u8; 32]> = redb::TableDefinition::new("namespaces-1");
+    const V2: redb::TableDefinition<&[u8; 32], (u8, &[u8; 32])> = redb::TableDefinition::new("namespaces-2");
+    use redb::ReadableTable;
+    let db = redb::Database::create(path)?;
+    let tx = db.begin_write()?;
+    {
+        let mut rows: Vec<([u8; 32], [u8; 32])> = vec![];
+        {
+            let v2 = tx.open_table(V2)?;
+            for r in v2.iter()? {
+                let (k, v) = r?;
+                let (kind, bytes) = v.value();
+                anyhow::ensure!(kind == 1, "a read-only document cannot be stored in the old table");
+                rows.push((*k.value(), *bytes));
+            }
+        }
+        let mut v1 = tx.open_table(V1)?;
+        for (id, secret) in &rows {
+            v1.insert(id, secret)?;
+        }
+    }
+    tx.delete_table(V2)?;
+    tx.commit()?;
+    Ok(())
+}
+
 pub fn run(ctx: &mut Ctx) {
     let scratch = Scratch::new();
     for case in ctx.cases(300, 20_000) {
@@ -104,6 +132,17 @@ fn one(ctx: &mut Ctx, case: u64, rng: &mut Rng, scratch: &Scratch) {
         return;
     }
     ctx.count(&format!("deleted[{}]", names.join("+")), 1);
+    // Files written before the by-key index existed may be older still: documents were then kept in
+    // the table `namespaces-1` (id -> secret), which the open converts after it rebuilt the heads.
+    // Half of the files without the index are put into that shape (all documents here are writable).
+    let old_namespaces = names.contains(&"records-by-key-1") && rng.chance(1, 2);
+    if old_namespaces {
+        if let Err(e) = namespaces_to_v1(&path) {
+            ctx.harness_error(format!("rewriting the namespaces table with plain redb failed: {e:?}"));
+            return;
+        }
+        ctx.count("files_with_the_old_namespaces_table", 1);
+    }
     let cycles = rng.range(1, 3);
     for cycle in 0..cycles {
         let mut store = match Store::persistent(&path) {
